@@ -538,16 +538,50 @@ func ruleK3(c *Ctx, id string) {
 	// AssertValidBlock strictness
 	a := V.AssertValidBlock
 	var lo, hi string
-	for _, br := range branches(a) {
-		if br.Cond.X == nil || br.Cond.Y == nil {
-			continue
-		}
-		if cl, ok := stripConv(br.Cond.Y).(*ssa.Call); ok && cl.Call.StaticCallee() != nil {
+	// the comparisons may sit in a predicate helper ("in range?") called by the assertion; a comparison that
+	// accepts (leads to 'in range' / no panic) is read through its negation
+	for _, sc := range scopesOf(a) {
+		for _, br := range branches(sc.Fn) {
+			if br.Cond.X == nil || br.Cond.Y == nil {
+				continue
+			}
+			cl, ok := stripConv(br.Cond.Y).(*ssa.Call)
+			if !ok || cl.Call.StaticCallee() == nil {
+				continue
+			}
+			// does the true side reject?  (reaches a panic, or returns constant false from a predicate)
+			rejects := func(b *ssa.BasicBlock) bool {
+				seen := map[*ssa.BasicBlock]bool{}
+				var walk func(b *ssa.BasicBlock, d int) bool
+				walk = func(b *ssa.BasicBlock, d int) bool {
+					if seen[b] || d > 3 {
+						return false
+					}
+					seen[b] = true
+					if isPanicExit(b) {
+						return true
+					}
+					if r, isR := b.Instrs[len(b.Instrs)-1].(*ssa.Return); isR && len(r.Results) == 1 {
+						if bv, isb := constBool(r.Results[0]); isb {
+							return !bv
+						}
+					}
+					if len(b.Succs) == 1 {
+						return walk(b.Succs[0], d+1)
+					}
+					return false
+				}
+				return walk(b, 0)
+			}
+			op := br.Cond.Op
+			if !rejects(br.True) && rejects(br.False) {
+				op = negOp(op)
+			}
 			switch cl.Call.StaticCallee().Name() {
 			case "DataStart":
-				lo = br.Cond.Op.String()
+				lo = op.String()
 			case "MaxBnum":
-				hi = br.Cond.Op.String()
+				hi = op.String()
 			}
 		}
 	}
